@@ -81,3 +81,28 @@ PROPS["C12"] = {
          "thorough": {"shards": 16, "timeout": 1500, "env": {"VERIF_C12_DEPTH": 5}}},
     ],
 }
+
+PROPS["C19"] = {
+    "title": "Canonical, binding encodings of blocks, transactions, receipts and chain id",
+    "level": "exploration",
+    "technique": "PBT (rapid): single-field mutation (metamorphic) on ids/digests/roots, list-operation mutation on Merkle roots, encode/decode round trips, reference re-implementation of the version table",
+    "level_text": ("Generated headers, tx bodies, receipt lists (with/without events and bloom, both receipt formats), chain ids, genesis "
+                   "documents and hardfork tables; every single-field mutation must change the block id / tx id / signed digest (except the "
+                   "signature) / receipts root, every list operation (replace, swap, insert, delete, duplicate) must change the tx and receipts "
+                   "root, and every stored form must read back equal. Exploration only."),
+    "level_note": ("nil and empty byte strings are the same value by design and not counted as a mutation. Receipts are generated in the "
+                   "domain the node produces (33-byte addresses with prefixes 02/03/0C, CumulativeFeeUsed unset, statuses of the enum). "
+                   "The gob path through the chain DB is covered by the chain-level unit. sha256 trusted."),
+    "rule": ("one rapid property per encoding; a case = (value, mutated field or list op). Non-trivial: block-id/tx-id/digest cases mutating a "
+             "field other than the first/last of the encoding, list cases with >=3 entries, receipt cases with >=3 receipts or events+bloom, chain "
+             "ids with non-empty magic and consensus, hardfork cases with an actual change of one fork height; distinct = distinct (value, mutation)."),
+    "assumptions": ["sha256 collision resistance"],
+    "units": [
+        {"pkg": "types", "run": "^TestC19(BlockID|TxID|TxRoot)$", "quick": {"checks": 3000, "shards": 3, "timeout": 240}, "thorough": {"checks": 60000, "shards": 6, "timeout": 1500}},
+        {"pkg": "types", "run": "^TestC19Receipts$", "quick": {"checks": 1500, "shards": 4, "timeout": 240}, "thorough": {"checks": 40000, "shards": 8, "timeout": 1500}},
+        {"pkg": "types", "run": "^TestC19ChainID$", "quick": {"checks": 2000, "shards": 2, "timeout": 240}, "thorough": {"checks": 40000, "shards": 4, "timeout": 1500}},
+        {"pkg": "types", "run": "^TestC19Regression$", "all": {"shards": 1, "timeout": 60}},
+        {"pkg": "account/key", "run": "^TestC19TxSignDigest$", "quick": {"checks": 600, "shards": 3, "timeout": 240}, "thorough": {"checks": 10000, "shards": 6, "timeout": 1500}},
+        {"pkg": "config", "run": "^TestC19HardforkVersion$", "quick": {"checks": 3000, "shards": 2, "timeout": 240}, "thorough": {"checks": 60000, "shards": 4, "timeout": 1500}},
+    ],
+}
